@@ -138,10 +138,10 @@ def _disp2eig(ctx):
         n = 3 * nat
         cplx = bool(i % 2)
         eig = unitary(rng, n, cplx)
-        mass = 10 ** rng.uniform(-1, 2.5, nat)
+        mass = 10 ** rng.uniform(-1, 2.5, nat) * float(rng.choice([1.0, 1.0, 1.66e-27, 1.66e-24, 1822.9]))     # amu, kg, g, electron masses: "of any unit"
         rows = n if i % 3 else int(rng.integers(1, n + 1))
         eig = eig[:rows]
-        cfac = 10 ** rng.uniform(-3, 3, rows) * (numpy.exp(1j * rng.uniform(0, 2 * numpy.pi, rows)) if cplx else rng.choice([-1.0, 1.0], rows))
+        cfac = 10 ** rng.uniform(-9, 6, rows) * (numpy.exp(1j * rng.uniform(0, 2 * numpy.pi, rows)) if cplx else rng.choice([-1.0, 1.0], rows))
         disp = cfac[:, None] * eig / numpy.sqrt(numpy.repeat(mass, 3))[None, :]
         disp0 = disp.copy()
         m_arg = list(mass) if i % 2 else numpy.array(mass)
@@ -223,8 +223,8 @@ def _load(ctx):
             if not ctx.mine(i, f"load{i}"):
                 continue
             rng = ctx.rng("load", i)
-            nq = int(rng.integers(1, 7))
-            nat = int(rng.integers(1, 21))
+            nq = int(rng.integers(1, 7)) if i % 3 else 2
+            nat = int(rng.integers(1, 21)) if i % 3 else 4
             np_ = 3 * nat
             qpts = []
             for _ in range(nq):
@@ -235,11 +235,23 @@ def _load(ctx):
                     vec = rng.uniform(-0.999999, 0.999999, np_) + 1j * rng.uniform(-0.999999, 0.999999, np_)
                     modes.append((cm1 / 33.35641, cm1, vec))
                 qpts.append((q, modes))
-            path = os.path.join(tmp, f"m{i}.eig")
+            # history: the same file name is used again and again (regenerated in place, or the same relative name in another
+            # directory), with the same counts - what is returned must be what the file holds *now*
+            sub = os.path.join(tmp, f"vol{i % 3}")
+            os.makedirs(sub, exist_ok=True)
+            path = os.path.join(sub, "matdyn.eig") if i % 2 else os.path.join(tmp, "matdyn.eig")
             printed = write_matdyn(path, qpts, rng)
             case_id = f"load{i}"
             try:
-                got = evec_load(path, nq, np_)
+                if i % 4 == 1:
+                    here = os.getcwd()
+                    os.chdir(sub)
+                    try:
+                        got = evec_load("matdyn.eig", nq, np_)
+                    finally:
+                        os.chdir(here)
+                else:
+                    got = evec_load(path, nq, np_)
             except Exception as exc:
                 if classify_exception(exc) == "code":
                     ctx.violation(f"load-raises:{type(exc).__name__}", f"nq={nq} modes={np_}\n{exc_text(exc)}", case_id, {"nq": nq, "np": np_})
